@@ -733,19 +733,21 @@ func (wl *writerLoop) runSym(v mergeVal) *mergeOutcome {
 			r.kcol = i
 		}
 	}
-	if wl.hm == nil {
-		wl.hm = newHashModel(wl.c, wl.m)
-	}
 	st := &kit.Std{F: f}
 	r.st = st
 	st.MaxInline = 4
 	st.ShouldInline = func(cf *kit.Func, call *ast.CallExpr) bool {
-		if cf == wl.hm.helper || wl.hm.isEntry(cf) || wl.m.writerOf(st.Cur(), call) != nil {
+		if wl.m.writerOf(st.Cur(), call) != nil {
 			return false
 		}
-		for _, wb := range wl.hm.writeBack {
-			if cf == wb {
+		if wl.hm != nil {
+			if cf == wl.hm.helper || wl.hm.isEntry(cf) {
 				return false
+			}
+			for _, wb := range wl.hm.writeBack {
+				if cf == wb {
+					return false
+				}
 			}
 		}
 		// a helper that executes SQL is followed only when it reads the stored rows of
